@@ -1,3 +1,1954 @@
 package main
 
-func emitFacts(repo, outDir string) int { return 0 }
+// Structural facts extracted from the working tree of the repository (go/parser + go/ast only; nothing is built,
+// nothing is type-checked by the Go tool chain).  Everything here is written to Gen/Facts.lean on every run.
+//
+// Other fact families register their own emitter in their own file:
+//
+//	func init() { factEmitters = append(factEmitters, emitMyFacts) }
+//
+// An emitter returns the number of things it could not extract (non-zero makes svx exit 3).
+
+import (
+	"crypto/sha256"
+	"encoding/hex"
+	"fmt"
+	"go/ast"
+	"go/parser"
+	"go/printer"
+	"go/token"
+	gotypes "go/types"
+	"os"
+	"path/filepath"
+	"sort"
+	"strconv"
+	"strings"
+)
+
+var factEmitters []func(repo, outDir string) int
+
+func init() { factEmitters = append(factEmitters, emitCoreFacts) }
+
+func emitFacts(repo, outDir string) int {
+	n := 0
+	for _, f := range factEmitters {
+		n += f(repo, outDir)
+	}
+	return n
+}
+
+const repoModule = "github.com/sunriselayer/sunrise"
+
+var customModules = []string{"da", "fee", "liquidityincentive", "liquiditypool", "selfdelegation", "shareclass", "swap", "tokenconverter"}
+
+// ---------------------------------------------------------------------------------------------- package loading
+
+type pkgInfo struct {
+	dir    string // relative to the repository root
+	files  map[string]*ast.File
+	names  []string                 // sorted file names
+	types  map[string]*ast.TypeSpec // named types (all files, including *.pb.go: needed for field types)
+	tfile  map[string]*ast.File
+	funcs  map[string]*ast.FuncDecl // "Name" or "Recv.Name"
+	ffile  map[*ast.FuncDecl]*ast.File
+	vars   map[string]*tyRef // package-level vars and consts with a known type
+	consts map[string]string // string constants
+}
+
+type factsLoader struct {
+	repo string
+	fset *token.FileSet
+	pkgs map[string]*pkgInfo
+	usedForeign map[string]bool
+}
+
+func isGenerated(name string) bool {
+	return strings.HasSuffix(name, ".pb.go") || strings.HasSuffix(name, ".pb.gw.go") || strings.HasSuffix(name, ".pulsar.go")
+}
+
+// load parses every non-test file of a directory (generated files too: they carry the struct field types).
+func (l *factsLoader) load(dir string) *pkgInfo {
+	if p, ok := l.pkgs[dir]; ok {
+		return p
+	}
+	p := &pkgInfo{dir: dir, files: map[string]*ast.File{}, types: map[string]*ast.TypeSpec{}, tfile: map[string]*ast.File{},
+		funcs: map[string]*ast.FuncDecl{}, ffile: map[*ast.FuncDecl]*ast.File{}, vars: map[string]*tyRef{}, consts: map[string]string{}}
+	l.pkgs[dir] = p
+	ents, err := os.ReadDir(filepath.Join(l.repo, dir))
+	if err != nil {
+		return p
+	}
+	for _, e := range ents {
+		n := e.Name()
+		if e.IsDir() || !strings.HasSuffix(n, ".go") || strings.HasSuffix(n, "_test.go") || strings.HasSuffix(n, ".pb.gw.go") || strings.HasSuffix(n, ".pulsar.go") {
+			continue
+		}
+		f, err := parser.ParseFile(l.fset, filepath.Join(l.repo, dir, n), nil, parser.SkipObjectResolution)
+		if err != nil {
+			fmt.Fprintf(os.Stderr, "svx facts: parse %s/%s: %v\n", dir, n, err)
+			continue
+		}
+		p.files[n] = f
+		p.names = append(p.names, n)
+	}
+	sort.Strings(p.names)
+	for _, n := range p.names {
+		f := p.files[n]
+		for _, d := range f.Decls {
+			switch d := d.(type) {
+			case *ast.FuncDecl:
+				key := d.Name.Name
+				if r, _ := recvTypeName(d); r != "" {
+					key = r + "." + key
+				}
+				p.funcs[key] = d
+				p.ffile[d] = f
+			case *ast.GenDecl:
+				for _, sp := range d.Specs {
+					switch sp := sp.(type) {
+					case *ast.TypeSpec:
+						p.types[sp.Name.Name] = sp
+						p.tfile[sp.Name.Name] = f
+					case *ast.ValueSpec:
+						for i, nm := range sp.Names {
+							if i < len(sp.Values) {
+								if bl, ok := sp.Values[i].(*ast.BasicLit); ok && bl.Kind == token.STRING {
+									if s, err := strconv.Unquote(bl.Value); err == nil {
+										p.consts[nm.Name] = s
+									}
+								}
+							}
+							if sp.Type != nil {
+								p.vars[nm.Name] = &tyRef{e: sp.Type, p: p, f: f}
+							} else if i < len(sp.Values) {
+								p.vars[nm.Name] = &tyRef{lazy: sp.Values[i], p: p, f: f}
+							}
+						}
+					}
+				}
+			}
+		}
+	}
+	return p
+}
+
+// importDir maps an identifier used as a package qualifier in file f to a repository directory ("" = foreign).
+func (l *factsLoader) importPath(f *ast.File, alias string) string {
+	for _, im := range f.Imports {
+		path, _ := strconv.Unquote(im.Path.Value)
+		name := path[strings.LastIndex(path, "/")+1:]
+		if strings.HasPrefix(name, "v") && len(name) <= 3 && strings.Count(path, "/") > 0 { // .../rand/v2
+			if _, err := strconv.Atoi(name[1:]); err == nil {
+				pp := path[:strings.LastIndex(path, "/")]
+				name = pp[strings.LastIndex(pp, "/")+1:]
+			}
+		}
+		if im.Name != nil {
+			name = im.Name.Name
+		}
+		if name == alias {
+			return path
+		}
+	}
+	return ""
+}
+
+func (l *factsLoader) importDir(f *ast.File, alias string) string {
+	path := l.importPath(f, alias)
+	if strings.HasPrefix(path, repoModule+"/") {
+		return strings.TrimPrefix(path, repoModule+"/")
+	}
+	return ""
+}
+
+// ---------------------------------------------------------------------------------------------- a very small type inference
+
+// tyRef: a type expression together with the package/file in which its identifiers are to be resolved.
+type tyRef struct {
+	e    ast.Expr
+	p    *pkgInfo
+	f    *ast.File
+	lazy ast.Expr // package-level `var x = expr`: type inferred on demand
+}
+
+// foreign named types whose underlying type is known to be a slice / a map
+var foreignSlices = map[string]bool{
+	"sdk.Coins": true, "sdk.DecCoins": true, "sdk.Events": true, "sdk.AccAddress": true, "sdk.ValAddress": true, "sdk.ConsAddress": true,
+	"types.Coins": true, "types.DecCoins": true, "stakingtypes.Validators": false, "json.RawMessage": true, "big.Word": false,
+	"v1.WeightedVoteOptions": true, "govv1.WeightedVoteOptions": true, "stakingtypes.Delegations": true, "stakingtypes.UnbondingDelegations": true,
+	"stakingtypes.Redelegations": true, "abci.ValidatorUpdates": true, "cmttypes.Txs": true,
+}
+
+type scope struct {
+	l    *factsLoader
+	p    *pkgInfo
+	f    *ast.File
+	vars map[string]*tyRef
+	caseBind map[*ast.CaseClause]string
+}
+
+func (s *scope) ref(e ast.Expr) *tyRef {
+	if e == nil {
+		return nil
+	}
+	return &tyRef{e: e, p: s.p, f: s.f}
+}
+
+// resolve strips names and pointers until a structural type expression is reached (nil = unknown).
+func (l *factsLoader) resolve(t *tyRef, depth int) *tyRef {
+	if t == nil || depth > 12 {
+		return nil
+	}
+	if t.e == nil {
+		return nil
+	}
+	switch e := t.e.(type) {
+	case *ast.ParenExpr:
+		return l.resolve(&tyRef{e: e.X, p: t.p, f: t.f}, depth+1)
+	case *ast.Ident:
+		if ts, ok := t.p.types[e.Name]; ok {
+			return l.resolve(&tyRef{e: ts.Type, p: t.p, f: t.p.tfile[e.Name]}, depth+1)
+		}
+		return t // builtin or type parameter
+	case *ast.SelectorExpr:
+		if x, ok := e.X.(*ast.Ident); ok {
+			if dir := l.importDir(t.f, x.Name); dir != "" {
+				q := l.load(dir)
+				if ts, ok := q.types[e.Sel.Name]; ok {
+					return l.resolve(&tyRef{e: ts.Type, p: q, f: q.tfile[e.Sel.Name]}, depth+1)
+				}
+			}
+		}
+		return t // foreign named type
+	}
+	return t
+}
+
+// classify a type: map | slice | string | int | chan | func | other | unknown
+func (l *factsLoader) classify(t *tyRef) string {
+	r := l.resolve(t, 0)
+	if r == nil {
+		return "unknown"
+	}
+	switch e := r.e.(type) {
+	case *ast.MapType:
+		return "map"
+	case *ast.ArrayType, *ast.Ellipsis:
+		return "slice"
+	case *ast.ChanType:
+		return "chan"
+	case *ast.FuncType:
+		return "func"
+	case *ast.StarExpr:
+		in := l.classify(&tyRef{e: e.X, p: r.p, f: r.f})
+		if in == "slice" { // pointer to array
+			return "slice"
+		}
+		if in == "unknown" {
+			return "unknown"
+		}
+		return "other"
+	case *ast.StructType, *ast.InterfaceType:
+		return "other"
+	case *ast.Ident:
+		switch e.Name {
+		case "string":
+			return "string"
+		case "int", "int8", "int16", "int32", "int64", "uint", "uint8", "uint16", "uint32", "uint64", "byte", "rune", "uintptr":
+			return "int"
+		case "bool", "error", "float32", "float64", "any":
+			return "other"
+		}
+		return "unknown"
+	case *ast.SelectorExpr:
+		s := exprStr(e)
+		if v, ok := foreignSlices[s]; ok && v {
+			return "slice"
+		}
+		if e.Sel.Name == "Coins" || e.Sel.Name == "DecCoins" { // sdk.Coins under any import alias (generated code uses long aliases)
+			return "slice"
+		}
+		return "unknown"
+	case *ast.IndexExpr, *ast.IndexListExpr:
+		return "unknown" // generic instantiation
+	}
+	return "unknown"
+}
+
+func (l *factsLoader) elem(t *tyRef) (key, val *tyRef) {
+	r := l.resolve(t, 0)
+	if r == nil {
+		return nil, nil
+	}
+	switch e := r.e.(type) {
+	case *ast.MapType:
+		return &tyRef{e: e.Key, p: r.p, f: r.f}, &tyRef{e: e.Value, p: r.p, f: r.f}
+	case *ast.ArrayType:
+		return &tyRef{e: ast.NewIdent("int"), p: r.p, f: r.f}, &tyRef{e: e.Elt, p: r.p, f: r.f}
+	case *ast.Ellipsis:
+		return &tyRef{e: ast.NewIdent("int"), p: r.p, f: r.f}, &tyRef{e: e.Elt, p: r.p, f: r.f}
+	case *ast.StarExpr:
+		return l.elem(&tyRef{e: e.X, p: r.p, f: r.f})
+	case *ast.SelectorExpr:
+		if e.Sel.Name == "Coins" {
+			return &tyRef{e: ast.NewIdent("int"), p: r.p, f: r.f}, &tyRef{e: &ast.SelectorExpr{X: ast.NewIdent("sdk"), Sel: ast.NewIdent("Coin")}, p: r.p, f: r.f}
+		}
+	}
+	return nil, nil
+}
+
+// structOf finds the struct type (and its package) behind a type, through names and pointers.
+func (l *factsLoader) structOf(t *tyRef) (*ast.StructType, *tyRef) {
+	r := l.resolve(t, 0)
+	for i := 0; r != nil && i < 4; i++ {
+		switch e := r.e.(type) {
+		case *ast.StructType:
+			return e, r
+		case *ast.StarExpr:
+			r = l.resolve(&tyRef{e: e.X, p: r.p, f: r.f}, 0)
+			continue
+		}
+		break
+	}
+	return nil, nil
+}
+
+// namedOf returns (package, type name) of a named repository type behind pointers.
+func (l *factsLoader) namedOf(t *tyRef) (*pkgInfo, string) {
+	for i := 0; t != nil && t.e != nil && i < 4; i++ {
+		switch e := t.e.(type) {
+		case *ast.StarExpr:
+			t = &tyRef{e: e.X, p: t.p, f: t.f}
+			continue
+		case *ast.ParenExpr:
+			t = &tyRef{e: e.X, p: t.p, f: t.f}
+			continue
+		case *ast.Ident:
+			if _, ok := t.p.types[e.Name]; ok {
+				return t.p, e.Name
+			}
+		case *ast.SelectorExpr:
+			if x, ok := e.X.(*ast.Ident); ok {
+				if dir := l.importDir(t.f, x.Name); dir != "" {
+					q := l.load(dir)
+					if _, ok := q.types[e.Sel.Name]; ok {
+						return q, e.Sel.Name
+					}
+				}
+			}
+		}
+		break
+	}
+	return nil, ""
+}
+
+func (l *factsLoader) fieldType(t *tyRef, name string) *tyRef {
+	st, r := l.structOf(t)
+	if st == nil {
+		return nil
+	}
+	for _, fl := range st.Fields.List {
+		for _, n := range fl.Names {
+			if n.Name == name {
+				return &tyRef{e: fl.Type, p: r.p, f: r.f}
+			}
+		}
+		if len(fl.Names) == 0 { // embedded
+			if ft := l.fieldType(&tyRef{e: fl.Type, p: r.p, f: r.f}, name); ft != nil {
+				return ft
+			}
+		}
+	}
+	return nil
+}
+
+// fieldAnywhere: the field name looked up in every struct of every loaded repository package; returns a type only
+// when all declarations agree on the classification.
+func (l *factsLoader) fieldAnywhere(name string) *tyRef {
+	var found *tyRef
+	cls := ""
+	dirs := []string{}
+	for d := range l.pkgs {
+		dirs = append(dirs, d)
+	}
+	sort.Strings(dirs)
+	for _, d := range dirs {
+		p := l.pkgs[d]
+		for tn, ts := range p.types {
+			st, ok := ts.Type.(*ast.StructType)
+			if !ok {
+				continue
+			}
+			for _, fl := range st.Fields.List {
+				for _, n := range fl.Names {
+					if n.Name == name {
+						t := &tyRef{e: fl.Type, p: p, f: p.tfile[tn]}
+						c := l.classify(t)
+						if cls != "" && c != cls {
+							return nil
+						}
+						cls, found = c, t
+					}
+				}
+			}
+		}
+	}
+	return found
+}
+
+func results(fd *ast.FuncDecl, p *pkgInfo) []*tyRef {
+	var out []*tyRef
+	if fd.Type.Results == nil {
+		return out
+	}
+	for _, r := range fd.Type.Results.List {
+		n := len(r.Names)
+		if n == 0 {
+			n = 1
+		}
+		for i := 0; i < n; i++ {
+			out = append(out, &tyRef{e: r.Type, p: p, f: p.ffile[fd]})
+		}
+	}
+	return out
+}
+
+func (l *factsLoader) methodAnywhere(name string) []*tyRef {
+	var found []*tyRef
+	count := 0
+	for _, p := range l.pkgs {
+		for k, fd := range p.funcs {
+			if strings.HasSuffix(k, "."+name) {
+				count++
+				found = results(fd, p)
+			}
+		}
+	}
+	if count == 1 {
+		return found
+	}
+	return nil
+}
+
+// typesOf infers the types of an expression (several for a call with several results).
+func (s *scope) typesOf(e ast.Expr) []*tyRef {
+	one := func(t *tyRef) []*tyRef { return []*tyRef{t} }
+	switch e := e.(type) {
+	case *ast.ParenExpr:
+		return s.typesOf(e.X)
+	case *ast.Ident:
+		if t, ok := s.vars[e.Name]; ok {
+			return one(t)
+		}
+		if t, ok := s.p.vars[e.Name]; ok {
+			if t.e == nil && t.lazy != nil {
+				ps := &scope{l: s.l, p: t.p, f: t.f, vars: map[string]*tyRef{}}
+				return one(ps.typeOf(t.lazy))
+			}
+			return one(t)
+		}
+		return one(nil)
+	case *ast.BasicLit:
+		switch e.Kind {
+		case token.STRING:
+			return one(s.ref(ast.NewIdent("string")))
+		case token.INT, token.CHAR:
+			return one(s.ref(ast.NewIdent("int")))
+		}
+		return one(s.ref(ast.NewIdent("float64")))
+	case *ast.CompositeLit:
+		return one(s.ref(e.Type))
+	case *ast.FuncLit:
+		return one(s.ref(e.Type))
+	case *ast.TypeAssertExpr:
+		return []*tyRef{s.ref(e.Type), s.ref(ast.NewIdent("bool"))}
+	case *ast.StarExpr:
+		t := s.typeOf(e.X)
+		if t != nil {
+			if r := s.l.resolve(t, 0); r != nil {
+				if st, ok := r.e.(*ast.StarExpr); ok {
+					return one(&tyRef{e: st.X, p: r.p, f: r.f})
+				}
+			}
+			if st, ok := t.e.(*ast.StarExpr); ok {
+				return one(&tyRef{e: st.X, p: t.p, f: t.f})
+			}
+		}
+		return one(nil)
+	case *ast.UnaryExpr:
+		t := s.typeOf(e.X)
+		if e.Op == token.AND && t != nil && t.e != nil {
+			return one(&tyRef{e: &ast.StarExpr{X: t.e}, p: t.p, f: t.f})
+		}
+		if e.Op == token.ARROW {
+			return one(nil)
+		}
+		if e.Op == token.NOT {
+			return one(s.ref(ast.NewIdent("bool")))
+		}
+		return one(t)
+	case *ast.BinaryExpr:
+		switch e.Op {
+		case token.EQL, token.NEQ, token.LSS, token.GTR, token.LEQ, token.GEQ, token.LAND, token.LOR:
+			return one(s.ref(ast.NewIdent("bool")))
+		}
+		if t := s.typeOf(e.X); t != nil {
+			return one(t)
+		}
+		return one(s.typeOf(e.Y))
+	case *ast.SliceExpr:
+		return one(s.typeOf(e.X))
+	case *ast.IndexExpr:
+		t := s.typeOf(e.X)
+		if t == nil {
+			return one(nil)
+		}
+		if s.l.classify(t) == "string" {
+			return one(s.ref(ast.NewIdent("byte")))
+		}
+		_, v := s.l.elem(t)
+		return []*tyRef{v, s.ref(ast.NewIdent("bool"))}
+	case *ast.SelectorExpr:
+		if x, ok := e.X.(*ast.Ident); ok {
+			if _, local := s.vars[x.Name]; !local {
+				if path := s.l.importPath(s.f, x.Name); path != "" {
+					if dir := s.l.importDir(s.f, x.Name); dir != "" {
+						q := s.l.load(dir)
+						if t, ok := q.vars[e.Sel.Name]; ok {
+							if t.e == nil && t.lazy != nil {
+								ps := &scope{l: s.l, p: t.p, f: t.f, vars: map[string]*tyRef{}}
+								return one(ps.typeOf(t.lazy))
+							}
+							return one(t)
+						}
+					}
+					return one(nil)
+				}
+			}
+		}
+		tx := s.typeOf(e.X)
+		if tx != nil {
+			if ft := s.l.fieldType(tx, e.Sel.Name); ft != nil {
+				return one(ft)
+			}
+			if ft := s.l.foreignMember(tx, e.Sel.Name); ft != nil {
+				return one(ft)
+			}
+		}
+		if ft := s.l.fieldAnywhere(e.Sel.Name); ft != nil {
+			return one(ft)
+		}
+		return one(s.l.foreignMember(nil, e.Sel.Name))
+	case *ast.CallExpr:
+		return s.callTypes(e)
+	}
+	return []*tyRef{nil}
+}
+
+func (s *scope) typeOf(e ast.Expr) *tyRef {
+	ts := s.typesOf(e)
+	if len(ts) == 0 {
+		return nil
+	}
+	return ts[0]
+}
+
+func isTypeExpr(e ast.Expr) bool {
+	switch e := e.(type) {
+	case *ast.ArrayType, *ast.MapType, *ast.ChanType, *ast.FuncType, *ast.InterfaceType, *ast.StructType:
+		return true
+	case *ast.ParenExpr:
+		return isTypeExpr(e.X)
+	case *ast.StarExpr:
+		return isTypeExpr(e.X)
+	}
+	return false
+}
+
+func (s *scope) callTypes(c *ast.CallExpr) []*tyRef {
+	one := func(t *tyRef) []*tyRef { return []*tyRef{t} }
+	fun := c.Fun
+	if p, ok := fun.(*ast.ParenExpr); ok {
+		fun = p.X
+	}
+	if ix, ok := fun.(*ast.IndexExpr); ok { // generic instantiation f[T](…)
+		fun = ix.X
+	}
+	if isTypeExpr(fun) {
+		return one(s.ref(fun))
+	}
+	switch f := fun.(type) {
+	case *ast.Ident:
+		switch f.Name {
+		case "make", "new":
+			if len(c.Args) > 0 {
+				if f.Name == "new" {
+					return one(s.ref(&ast.StarExpr{X: c.Args[0]}))
+				}
+				return one(s.ref(c.Args[0]))
+			}
+		case "append":
+			if len(c.Args) > 0 {
+				return one(s.typeOf(c.Args[0]))
+			}
+		case "len", "cap", "copy", "min", "max":
+			return one(s.ref(ast.NewIdent("int")))
+		case "string":
+			return one(s.ref(ast.NewIdent("string")))
+		case "int", "int64", "uint64", "int32", "uint32", "byte", "uint", "uint8", "uint16", "int16", "int8", "rune":
+			return one(s.ref(ast.NewIdent("int")))
+		}
+		if _, ok := s.p.types[f.Name]; ok {
+			return one(s.ref(f))
+		}
+		if t, ok := s.vars[f.Name]; ok { // closure variable
+			if r := s.l.resolve(t, 0); r != nil {
+				if ft, ok := r.e.(*ast.FuncType); ok && ft.Results != nil {
+					var out []*tyRef
+					for _, x := range ft.Results.List {
+						n := len(x.Names)
+						if n == 0 {
+							n = 1
+						}
+						for i := 0; i < n; i++ {
+							out = append(out, &tyRef{e: x.Type, p: r.p, f: r.f})
+						}
+					}
+					return out
+				}
+			}
+			return one(nil)
+		}
+		if fd, ok := s.p.funcs[f.Name]; ok {
+			return results(fd, s.p)
+		}
+		return one(nil)
+	case *ast.SelectorExpr:
+		if x, ok := f.X.(*ast.Ident); ok {
+			if _, local := s.vars[x.Name]; !local {
+				if path := s.l.importPath(s.f, x.Name); path != "" {
+					if dir := s.l.importDir(s.f, x.Name); dir != "" {
+						q := s.l.load(dir)
+						if fd, ok := q.funcs[f.Sel.Name]; ok {
+							return results(fd, q)
+						}
+						if _, ok := q.types[f.Sel.Name]; ok {
+							return one(s.ref(f))
+						}
+					}
+					switch exprStr(f) { // a few foreign functions that matter
+					case "sort.Strings", "sort.Slice", "sort.SliceStable":
+						return nil
+					case "strings.Split", "strings.Fields":
+						return one(s.ref(&ast.ArrayType{Elt: ast.NewIdent("string")}))
+					case "accountstd.Funds":
+						return one(s.l.foreignMember(nil, "Funds"))
+					case "sdk.NewCoins":
+						return one(s.ref(&ast.SelectorExpr{X: ast.NewIdent("sdk"), Sel: ast.NewIdent("Coins")}))
+					}
+					return one(nil)
+				}
+			}
+		}
+		// method call
+		tx := s.typeOf(f.X)
+		if q, tn := s.l.namedOf(tx); q != nil {
+			if fd, ok := q.funcs[tn+"."+f.Sel.Name]; ok {
+				return results(fd, q)
+			}
+			// interface type declared in the repository
+			if it, ok := q.types[tn].Type.(*ast.InterfaceType); ok {
+				for _, m := range it.Methods.List {
+					for _, n := range m.Names {
+						if n.Name == f.Sel.Name {
+							if ft, ok := m.Type.(*ast.FuncType); ok && ft.Results != nil {
+								var out []*tyRef
+								for _, x := range ft.Results.List {
+									k := len(x.Names)
+									if k == 0 {
+										k = 1
+									}
+									for i := 0; i < k; i++ {
+										out = append(out, &tyRef{e: x.Type, p: q, f: q.tfile[tn]})
+									}
+								}
+								return out
+							}
+						}
+					}
+				}
+			}
+			// struct field of function type
+			if ft := s.l.fieldType(tx, f.Sel.Name); ft != nil {
+				return one(nil)
+			}
+		}
+		if tx != nil {
+			// field of interface type etc.: give up on the receiver, fall through to the name-based lookup
+			if r := s.l.resolve(tx, 0); r != nil {
+				if it, ok := r.e.(*ast.InterfaceType); ok {
+					for _, m := range it.Methods.List {
+						for _, n := range m.Names {
+							if n.Name == f.Sel.Name {
+								if ft, ok := m.Type.(*ast.FuncType); ok && ft.Results != nil {
+									var out []*tyRef
+									for _, x := range ft.Results.List {
+										k := len(x.Names)
+										if k == 0 {
+											k = 1
+										}
+										for i := 0; i < k; i++ {
+											out = append(out, &tyRef{e: x.Type, p: r.p, f: r.f})
+										}
+									}
+									return out
+								}
+							}
+						}
+					}
+				}
+			}
+		}
+		if rs := s.l.methodAnywhere(f.Sel.Name); rs != nil && tx == nil {
+			return rs
+		}
+		if ft := s.l.foreignMember(tx, f.Sel.Name); ft != nil {
+			return one(ft)
+		}
+		return one(nil)
+	}
+	return one(nil)
+}
+
+// Fields and methods of types declared OUTSIDE the repository (Cosmos SDK) whose (first) result is a slice; read from the
+// pinned dependency sources.  Used only when the receiver is not a repository type and no repository declaration has the name.
+// Every entry that was actually used is listed in Gen/Facts.lean (`foreignSliceAssumptions`).
+var foreignSliceMembers = map[string]string{
+	"Manager.OrderPreBlockers":                  "[]string (cosmos-sdk types/module.Manager)",
+	"GetStoreKeys":                              "[]storetypes.StoreKey (cosmos-sdk runtime.App)",
+	"GetAllDelegations":                         "[]stakingtypes.Delegation (x/staking keeper)",
+	"Entries":                                   "[]RedelegationEntry / []UnbondingDelegationEntry (x/staking types)",
+	"Options":                                   "[]*WeightedVoteOption (x/gov v1.Vote)",
+	"Sort":                                      "sdk.Coins (sdk.Coins.Sort)",
+	"Denoms":                                    "[]string (sdk.Coins.Denoms)",
+	"Funds":                                     "sdk.Coins (x/accounts accountstd.Funds)",
+	"MsgWithdrawDelegatorRewardResponse.Amount": "sdk.Coins (x/distribution)",
+	"OrderPreBlockers":                          "[]string (cosmos-sdk types/module.Manager)",
+}
+
+func (l *factsLoader) foreignMember(recv *tyRef, name string) *tyRef {
+	mk := func(key string) *tyRef {
+		l.usedForeign[key+": "+foreignSliceMembers[key]] = true
+		return &tyRef{e: &ast.ArrayType{Elt: ast.NewIdent("any")}, p: l.anyPkg(), f: nil}
+	}
+	if recv != nil && recv.e != nil {
+		if q, _ := l.namedOf(recv); q != nil {
+			// a repository type: never guessed, unless the member can only come from an embedded foreign type
+			embeds := false
+			if st, r := l.structOf(recv); st != nil {
+				for _, fl := range st.Fields.List {
+					if len(fl.Names) == 0 {
+						if qq, _ := l.namedOf(&tyRef{e: fl.Type, p: r.p, f: r.f}); qq == nil {
+							embeds = true
+						}
+					}
+				}
+			}
+			if !embeds {
+				return nil
+			}
+		}
+		t := recv.e
+		if st, ok := t.(*ast.StarExpr); ok {
+			t = st.X
+		}
+		if se, ok := t.(*ast.SelectorExpr); ok {
+			if _, ok := foreignSliceMembers[se.Sel.Name+"."+name]; ok {
+				return mk(se.Sel.Name + "." + name)
+			}
+		}
+	}
+	if l.declaredInRepo(name) {
+		return nil
+	}
+	if _, ok := foreignSliceMembers[name]; ok {
+		return mk(name)
+	}
+	return nil
+}
+
+func (l *factsLoader) anyPkg() *pkgInfo {
+	for _, p := range l.pkgs {
+		return p
+	}
+	return nil
+}
+
+func (l *factsLoader) declaredInRepo(name string) bool {
+	for _, p := range l.pkgs {
+		for k := range p.funcs {
+			if k == name || strings.HasSuffix(k, "."+name) {
+				return true
+			}
+		}
+		for _, ts := range p.types {
+			if st, ok := ts.Type.(*ast.StructType); ok {
+				for _, fl := range st.Fields.List {
+					for _, n := range fl.Names {
+						if n.Name == name {
+							return true
+						}
+					}
+				}
+			}
+		}
+	}
+	return false
+}
+
+// declare records the variables introduced by a statement.
+func (s *scope) declare(n ast.Node) {
+	switch n := n.(type) {
+	case *ast.AssignStmt:
+		if n.Tok != token.DEFINE && n.Tok != token.ASSIGN {
+			return
+		}
+		var ts []*tyRef
+		if len(n.Rhs) == 1 && len(n.Lhs) > 1 {
+			ts = s.typesOf(n.Rhs[0])
+		} else {
+			for _, r := range n.Rhs {
+				ts = append(ts, s.typeOf(r))
+			}
+		}
+		for i, lh := range n.Lhs {
+			id, ok := lh.(*ast.Ident)
+			if !ok || id.Name == "_" {
+				continue
+			}
+			var t *tyRef
+			if i < len(ts) {
+				t = ts[i]
+			}
+			if n.Tok == token.DEFINE {
+				s.vars[id.Name] = t
+			} else if _, known := s.vars[id.Name]; !known && t != nil {
+				s.vars[id.Name] = t
+			}
+		}
+	case *ast.DeclStmt:
+		if gd, ok := n.Decl.(*ast.GenDecl); ok {
+			for _, sp := range gd.Specs {
+				if vs, ok := sp.(*ast.ValueSpec); ok {
+					for i, nm := range vs.Names {
+						if vs.Type != nil {
+							s.vars[nm.Name] = s.ref(vs.Type)
+						} else if i < len(vs.Values) {
+							s.vars[nm.Name] = s.typeOf(vs.Values[i])
+						}
+					}
+				}
+			}
+		}
+	case *ast.RangeStmt:
+		if n.Tok == token.DEFINE {
+			t := s.typeOf(n.X)
+			k, v := s.l.elem(t)
+			if s.l.classify(t) == "int" {
+				k = s.ref(ast.NewIdent("int"))
+			}
+			if id, ok := n.Key.(*ast.Ident); ok && id.Name != "_" {
+				s.vars[id.Name] = k
+			}
+			if id, ok := n.Value.(*ast.Ident); ok && id.Name != "_" {
+				s.vars[id.Name] = v
+			}
+		}
+	case *ast.FuncLit:
+		s.params(n.Type)
+	case *ast.TypeSwitchStmt:
+		if as, ok := n.Assign.(*ast.AssignStmt); ok && len(as.Lhs) == 1 {
+			if id, ok := as.Lhs[0].(*ast.Ident); ok {
+				for _, c := range n.Body.List {
+					if cc, ok := c.(*ast.CaseClause); ok {
+						if s.caseBind == nil {
+							s.caseBind = map[*ast.CaseClause]string{}
+						}
+						s.caseBind[cc] = id.Name
+					}
+				}
+			}
+		}
+	case *ast.CaseClause:
+		if name, ok := s.caseBind[n]; ok {
+			if len(n.List) == 1 {
+				s.vars[name] = s.ref(n.List[0])
+			} else {
+				s.vars[name] = nil
+			}
+		}
+	}
+}
+
+func (s *scope) params(ft *ast.FuncType) {
+	add := func(fl *ast.FieldList) {
+		if fl == nil {
+			return
+		}
+		for _, p := range fl.List {
+			for _, n := range p.Names {
+				s.vars[n.Name] = s.ref(p.Type)
+			}
+		}
+	}
+	add(ft.Params)
+	add(ft.Results)
+}
+
+// ---------------------------------------------------------------------------------------------- helpers
+
+func normText(fset *token.FileSet, n ast.Node) string {
+	var sb strings.Builder
+	cfg := printer.Config{Mode: printer.RawFormat}
+	_ = cfg.Fprint(&sb, fset, n)
+	return strings.Join(strings.Fields(sb.String()), " ")
+}
+
+func shortHash(s string) string {
+	h := sha256.Sum256([]byte(s))
+	return hex.EncodeToString(h[:8])
+}
+
+func funcKey(fd *ast.FuncDecl) string {
+	if r, _ := recvTypeName(fd); r != "" {
+		return r + "." + fd.Name.Name
+	}
+	return fd.Name.Name
+}
+
+func leanStr(s string) string {
+	var sb strings.Builder
+	sb.WriteByte('"')
+	for _, r := range s {
+		switch {
+		case r == '"':
+			sb.WriteString("\\\"")
+		case r == '\\':
+			sb.WriteString("\\\\")
+		case r == '\n':
+			sb.WriteString("\\n")
+		case r == '\t':
+			sb.WriteString("\\t")
+		case r < 0x20 || r > 0x7e:
+			fmt.Fprintf(&sb, "\\u{%x}", r)
+		default:
+			sb.WriteRune(r)
+		}
+	}
+	sb.WriteByte('"')
+	return sb.String()
+}
+
+func leanStrList(xs []string) string {
+	q := make([]string, len(xs))
+	for i, x := range xs {
+		q[i] = leanStr(x)
+	}
+	return "[" + strings.Join(q, ", ") + "]"
+}
+
+func baseIdent(e ast.Expr) string {
+	for {
+		switch x := e.(type) {
+		case *ast.Ident:
+			return x.Name
+		case *ast.SelectorExpr:
+			e = x.X
+		case *ast.IndexExpr:
+			e = x.X
+		case *ast.StarExpr:
+			e = x.X
+		case *ast.ParenExpr:
+			e = x.X
+		case *ast.SliceExpr:
+			e = x.X
+		default:
+			return ""
+		}
+	}
+}
+
+func mentions(n ast.Node, names map[string]bool) bool {
+	hit := false
+	ast.Inspect(n, func(x ast.Node) bool {
+		if id, ok := x.(*ast.Ident); ok && names[id.Name] {
+			hit = true
+		}
+		return !hit
+	})
+	return hit
+}
+
+// consensusDirs: packages whose code runs inside block / message processing.
+func consensusDirs(repo string) []string {
+	var dirs []string
+	add := func(d string) {
+		if st, err := os.Stat(filepath.Join(repo, d)); err == nil && st.IsDir() {
+			dirs = append(dirs, d)
+		}
+	}
+	for _, d := range []string{"app", "app/gov", "app/mint", "app/custom", "app/consts"} {
+		add(d)
+	}
+	mods, _ := os.ReadDir(filepath.Join(repo, "x"))
+	for _, m := range mods {
+		if !m.IsDir() {
+			continue
+		}
+		if m.Name() == "accounts" {
+			subs, _ := os.ReadDir(filepath.Join(repo, "x/accounts"))
+			for _, s := range subs {
+				if s.IsDir() {
+					add("x/accounts/" + s.Name())
+				}
+			}
+			continue
+		}
+		for _, sub := range []string{"keeper", "types", "module", "ante", "erasurecoding", "zkp"} {
+			add("x/" + m.Name() + "/" + sub)
+		}
+	}
+	sort.Strings(dirs)
+	return dirs
+}
+
+func consensusFile(name string) bool {
+	if isGenerated(name) || strings.HasSuffix(name, "_test.go") {
+		return false
+	}
+	switch name {
+	case "simulation.go", "autocli.go", "sim_test.go", "sim_bench_test.go":
+		return false
+	}
+	return true
+}
+
+// ---------------------------------------------------------------------------------------------- range-over-map sites
+
+type rangeSite struct {
+	file, fn, hash, useHash, expr, kind string
+	writes, calls, uses                 []string
+	line                                int
+}
+
+type construct struct{ kind, file, fn, detail string }
+
+func scanDeterminism(l *factsLoader, dirs []string) (sites []rangeSite, cons []construct, nRange int) {
+	for _, d := range dirs {
+		p := l.load(d)
+		for _, fname := range p.names {
+			if !consensusFile(fname) {
+				continue
+			}
+			f := p.files[fname]
+			rel := d + "/" + fname
+			// file-level: imports
+			aliases := map[string]string{} // alias -> kind
+			for _, im := range f.Imports {
+				path, _ := strconv.Unquote(im.Path.Value)
+				kind := ""
+				switch {
+				case path == "math/rand" || path == "math/rand/v2" || path == "crypto/rand" || strings.HasSuffix(path, "/exp/rand"):
+					kind = "rand"
+				case path == "unsafe":
+					kind = "unsafe"
+				case path == "sync" || path == "sync/atomic":
+					kind = "sync"
+				case path == "time":
+					kind = "time"
+				}
+				if kind == "" {
+					continue
+				}
+				a := path[strings.LastIndex(path, "/")+1:]
+				if path == "math/rand/v2" {
+					a = "rand"
+				}
+				if im.Name != nil {
+					a = im.Name.Name
+				}
+				aliases[a] = kind
+				if kind == "unsafe" || (im.Name != nil && (im.Name.Name == "_" || im.Name.Name == ".")) {
+					cons = append(cons, construct{kind, rel, "(import)", path})
+				}
+			}
+			scanNode := func(fnName string, root ast.Node, sc *scope, fd *ast.FuncDecl) {
+				ast.Inspect(root, func(n ast.Node) bool {
+					if n == nil {
+						return true
+					}
+					switch x := n.(type) {
+					case *ast.GoStmt:
+						cons = append(cons, construct{"go", rel, fnName, normText(l.fset, x.Call.Fun)})
+					case *ast.SelectStmt:
+						cons = append(cons, construct{"select", rel, fnName, ""})
+					case *ast.Ident:
+						if x.Name == "float32" || x.Name == "float64" {
+							cons = append(cons, construct{"float", rel, fnName, x.Name})
+						}
+					case *ast.BasicLit:
+						if x.Kind == token.FLOAT {
+							cons = append(cons, construct{"float", rel, fnName, x.Value})
+						}
+						if x.Kind == token.STRING && strings.Contains(x.Value, "%p") {
+							cons = append(cons, construct{"pointer-format", rel, fnName, x.Value})
+						}
+					case *ast.SelectorExpr:
+						if id, ok := x.X.(*ast.Ident); ok {
+							local := false
+							if sc != nil {
+								_, local = sc.vars[id.Name]
+							}
+							if k, ok := aliases[id.Name]; ok && !local {
+								switch k {
+								case "time":
+									if x.Sel.Name == "Now" || x.Sel.Name == "Since" || x.Sel.Name == "Until" || x.Sel.Name == "After" || x.Sel.Name == "Tick" || x.Sel.Name == "Sleep" || x.Sel.Name == "NewTimer" || x.Sel.Name == "NewTicker" || x.Sel.Name == "AfterFunc" {
+										cons = append(cons, construct{"time", rel, fnName, "time." + x.Sel.Name})
+									}
+								default:
+									cons = append(cons, construct{k, rel, fnName, id.Name + "." + x.Sel.Name})
+								}
+							}
+						}
+					}
+					if sc != nil {
+						sc.declare(n)
+						if rs, ok := n.(*ast.RangeStmt); ok {
+							nRange++
+							t := sc.typeOf(rs.X)
+							cls := l.classify(t)
+							if cls == "map" || cls == "unknown" {
+								sites = append(sites, makeSite(l, dirs, rel, fnName, fd, rs, cls))
+							}
+						}
+					}
+					return true
+				})
+			}
+			for _, decl := range f.Decls {
+				switch dd := decl.(type) {
+				case *ast.FuncDecl:
+					if dd.Body == nil {
+						continue
+					}
+					sc := &scope{l: l, p: p, f: f, vars: map[string]*tyRef{}}
+					if dd.Recv != nil {
+						for _, r := range dd.Recv.List {
+							for _, n := range r.Names {
+								sc.vars[n.Name] = sc.ref(r.Type)
+							}
+						}
+					}
+					sc.params(dd.Type)
+					scanNode(funcKey(dd), dd, sc, dd)
+				case *ast.GenDecl:
+					scanNode("(package)", dd, nil, nil)
+				}
+			}
+		}
+	}
+	return
+}
+
+func makeSite(l *factsLoader, dirs []string, rel, fnName string, fd *ast.FuncDecl, rs *ast.RangeStmt, cls string) rangeSite {
+	s := rangeSite{file: rel, fn: fnName, expr: normText(l.fset, rs.X), kind: cls, line: l.fset.Position(rs.Pos()).Line}
+	s.hash = shortHash(normText(l.fset, rs))
+	// variables declared inside the loop (including key/value)
+	inner := map[string]bool{}
+	for _, e := range []ast.Expr{rs.Key, rs.Value} {
+		if id, ok := e.(*ast.Ident); ok && rs.Tok == token.DEFINE {
+			inner[id.Name] = true
+		}
+	}
+	ast.Inspect(rs.Body, func(n ast.Node) bool {
+		switch x := n.(type) {
+		case *ast.AssignStmt:
+			if x.Tok == token.DEFINE {
+				for _, lh := range x.Lhs {
+					if id, ok := lh.(*ast.Ident); ok {
+						inner[id.Name] = true
+					}
+				}
+			}
+		case *ast.RangeStmt:
+			if x.Tok == token.DEFINE {
+				for _, e := range []ast.Expr{x.Key, x.Value} {
+					if id, ok := e.(*ast.Ident); ok {
+						inner[id.Name] = true
+					}
+				}
+			}
+		case *ast.DeclStmt:
+			if gd, ok := x.Decl.(*ast.GenDecl); ok {
+				for _, sp := range gd.Specs {
+					if vs, ok := sp.(*ast.ValueSpec); ok {
+						for _, nm := range vs.Names {
+							inner[nm.Name] = true
+						}
+					}
+				}
+			}
+		}
+		return true
+	})
+	w := map[string]bool{}
+	c := map[string]bool{}
+	ast.Inspect(rs.Body, func(n ast.Node) bool {
+		switch x := n.(type) {
+		case *ast.AssignStmt:
+			for _, lh := range x.Lhs {
+				if b := baseIdent(lh); b != "" && b != "_" && !inner[b] {
+					w[b] = true
+				}
+			}
+		case *ast.IncDecStmt:
+			if b := baseIdent(x.X); b != "" && !inner[b] {
+				w[b] = true
+			}
+		case *ast.CallExpr:
+			c[normText(l.fset, x.Fun)] = true
+		case *ast.ReturnStmt:
+			c["return"] = true
+		case *ast.BranchStmt:
+			if x.Tok == token.BREAK {
+				c["break"] = true
+			}
+		}
+		return true
+	})
+	for k := range w {
+		s.writes = append(s.writes, k)
+	}
+	for k := range c {
+		s.calls = append(s.calls, k)
+	}
+	sort.Strings(s.writes)
+	sort.Strings(s.calls)
+	// every simple statement / header expression of the enclosing function outside the loop that mentions a variable written by
+	// the loop or derived from one (taint through assignments and nested ranges); if such a value is returned, the same in every
+	// consensus function that calls the enclosing function.
+	var uses []string
+	if fd != nil && len(w) > 0 {
+		tainted := map[string]bool{}
+		for k := range w {
+			tainted[k] = true
+		}
+		us, ret := taintUses(l, fd.Body, rs, tainted)
+		uses = append(uses, us...)
+		if ret {
+			for _, d := range dirs {
+				p := l.pkgs[d]
+				for _, fname := range p.names {
+					if !consensusFile(fname) {
+						continue
+					}
+					for _, decl := range p.files[fname].Decls {
+						g, ok := decl.(*ast.FuncDecl)
+						if !ok || g.Body == nil || g == fd {
+							continue
+						}
+						seeds := map[string]bool{}
+						ast.Inspect(g.Body, func(n ast.Node) bool {
+							as, ok := n.(*ast.AssignStmt)
+							if !ok {
+								return true
+							}
+							calls := false
+							for _, r := range as.Rhs {
+								ast.Inspect(r, func(x ast.Node) bool {
+									if c, ok := x.(*ast.CallExpr); ok {
+										switch f := c.Fun.(type) {
+										case *ast.Ident:
+											calls = calls || f.Name == fd.Name.Name
+										case *ast.SelectorExpr:
+											calls = calls || f.Sel.Name == fd.Name.Name
+										}
+									}
+									return true
+								})
+							}
+							if calls {
+								for _, lh := range as.Lhs {
+									if b := baseIdent(lh); b != "" && b != "_" && b != "err" && b != "ok" {
+										seeds[b] = true
+									}
+								}
+							}
+							return true
+						})
+						if len(seeds) == 0 {
+							continue
+						}
+						cu, _ := taintUses(l, g.Body, nil, seeds)
+						for _, u := range cu {
+							uses = append(uses, "caller "+d+"/"+fname+" "+funcKey(g)+": "+u)
+						}
+					}
+				}
+			}
+		}
+	}
+	s.uses = uses
+	s.useHash = shortHash(strings.Join(uses, "\n"))
+	return s
+}
+
+// taintUses: statements of body (outside skip) that mention a tainted variable; taint spreads through assignments and ranges.
+// Second result: a return statement mentions a tainted variable.
+func taintUses(l *factsLoader, body *ast.BlockStmt, skip *ast.RangeStmt, tainted map[string]bool) (uses []string, returns bool) {
+	for changed := true; changed; {
+		changed = false
+		ast.Inspect(body, func(n ast.Node) bool {
+			if skip != nil && n == ast.Node(skip) {
+				return false
+			}
+			switch x := n.(type) {
+			case *ast.AssignStmt:
+				hit := false
+				for _, r := range x.Rhs {
+					hit = hit || mentions(r, tainted)
+				}
+				if hit {
+					for _, lh := range x.Lhs {
+						if b := baseIdent(lh); b != "" && b != "_" && b != "err" && b != "ok" && !tainted[b] {
+							tainted[b] = true
+							changed = true
+						}
+					}
+				}
+			case *ast.RangeStmt:
+				if mentions(x.X, tainted) {
+					for _, e := range []ast.Expr{x.Key, x.Value} {
+						if id, ok := e.(*ast.Ident); ok && id.Name != "_" && !tainted[id.Name] {
+							tainted[id.Name] = true
+							changed = true
+						}
+					}
+				}
+			}
+			return true
+		})
+	}
+	ast.Inspect(body, func(n ast.Node) bool {
+		if n == nil {
+			return true
+		}
+		if skip != nil && n == ast.Node(skip) {
+			return false
+		}
+		switch x := n.(type) {
+		case *ast.AssignStmt, *ast.ExprStmt, *ast.ReturnStmt, *ast.IncDecStmt, *ast.DeclStmt, *ast.SendStmt, *ast.GoStmt, *ast.DeferStmt:
+			if mentions(x, tainted) {
+				uses = append(uses, normText(l.fset, x))
+				if _, ok := x.(*ast.ReturnStmt); ok {
+					returns = true
+				}
+			}
+			return false
+		case *ast.IfStmt:
+			if x.Cond != nil && mentions(x.Cond, tainted) {
+				uses = append(uses, "if "+normText(l.fset, x.Cond))
+			}
+		case *ast.ForStmt:
+			if x.Cond != nil && mentions(x.Cond, tainted) {
+				uses = append(uses, "for "+normText(l.fset, x.Cond))
+			}
+		case *ast.RangeStmt:
+			if mentions(x.X, tainted) {
+				uses = append(uses, "range "+normText(l.fset, x.X))
+			}
+		case *ast.SwitchStmt:
+			if x.Tag != nil && mentions(x.Tag, tainted) {
+				uses = append(uses, "switch "+normText(l.fset, x.Tag))
+			}
+		}
+		return true
+	})
+	return
+}
+
+// ---------------------------------------------------------------------------------------------- store prefixes and genesis coverage
+
+type prefixRow struct {
+	module, name, prefix, kind, parent string // kind: coll | index | raw ; parent: field name of the primary map of an index
+	initWrites, exportReads            bool
+}
+
+type touch struct{ r, w bool }
+
+type modFacts struct {
+	l       *factsLoader
+	mod     string
+	kp, tp  *pkgInfo
+	rows    []prefixRow
+	fields  map[string]bool   // collection fields of Keeper
+	rawKey  map[string]string // raw prefix const name / key function name (types package) -> row name
+	memo    map[string]map[string]touch
+	onStack map[string]bool
+}
+
+func prefixOfExpr(l *factsLoader, p *pkgInfo, f *ast.File, e ast.Expr) (string, bool) {
+	// types.X  or  X  -> package var initialised with collections.NewPrefix(<lit>)
+	var q *pkgInfo
+	name := ""
+	switch x := e.(type) {
+	case *ast.SelectorExpr:
+		if id, ok := x.X.(*ast.Ident); ok {
+			if dir := l.importDir(f, id.Name); dir != "" {
+				q, name = l.load(dir), x.Sel.Name
+			}
+		}
+	case *ast.Ident:
+		q, name = p, x.Name
+	case *ast.CallExpr:
+		if exprStr(x.Fun) == "collections.NewPrefix" && len(x.Args) == 1 {
+			if bl, ok := x.Args[0].(*ast.BasicLit); ok {
+				if bl.Kind == token.STRING {
+					s, _ := strconv.Unquote(bl.Value)
+					return s, true
+				}
+				return "#" + bl.Value, true
+			}
+			if id, ok := x.Args[0].(*ast.Ident); ok {
+				if s, ok := p.consts[id.Name]; ok {
+					return s, true
+				}
+			}
+		}
+		return "", false
+	}
+	if q == nil {
+		return "", false
+	}
+	t, ok := q.vars[name]
+	if !ok || t.lazy == nil {
+		return "", false
+	}
+	return prefixOfExpr(l, q, t.f, t.lazy)
+}
+
+func (m *modFacts) collect() int {
+	bad := 0
+	l := m.l
+	ks, ok := m.kp.types["Keeper"]
+	if !ok {
+		fmt.Fprintf(os.Stderr, "svx facts: %s: no Keeper type\n", m.mod)
+		return 1
+	}
+	st, ok := ks.Type.(*ast.StructType)
+	if !ok {
+		return 1
+	}
+	var order []string
+	for _, fl := range st.Fields.List {
+		ts := gotypes.ExprString(fl.Type)
+		if strings.Contains(ts, "collections.") && !strings.Contains(ts, "collections.Schema") {
+			for _, n := range fl.Names {
+				m.fields[n.Name] = true
+				order = append(order, n.Name)
+			}
+		}
+	}
+	// constructor: Field: collections.NewX(sb, prefix, "name", …)
+	seen := map[string]bool{}
+	for _, fname := range m.kp.names {
+		f := m.kp.files[fname]
+		ast.Inspect(f, func(n ast.Node) bool {
+			kv, ok := n.(*ast.KeyValueExpr)
+			if !ok {
+				return true
+			}
+			key, ok := kv.Key.(*ast.Ident)
+			if !ok || !m.fields[key.Name] {
+				return true
+			}
+			call, ok := kv.Value.(*ast.CallExpr)
+			if !ok || !strings.HasPrefix(exprStr(call.Fun), "collections.New") || len(call.Args) < 3 {
+				return true
+			}
+			pfx, ok := prefixOfExpr(l, m.kp, f, call.Args[1])
+			if !ok {
+				fmt.Fprintf(os.Stderr, "svx facts: %s.%s: prefix expression %s not resolved\n", m.mod, key.Name, exprStr(call.Args[1]))
+				bad++
+				pfx = "?" + exprStr(call.Args[1])
+			}
+			m.rows = append(m.rows, prefixRow{module: m.mod, name: key.Name, prefix: pfx, kind: "coll"})
+			seen[key.Name] = true
+			// indexes of an IndexedMap: last argument types.NewXIndexes(sb, …)
+			if strings.HasSuffix(exprStr(call.Fun), "NewIndexedMap") {
+				last := call.Args[len(call.Args)-1]
+				if ic, ok := last.(*ast.CallExpr); ok {
+					var q *pkgInfo
+					fn := ""
+					switch fx := ic.Fun.(type) {
+					case *ast.SelectorExpr:
+						if id, ok := fx.X.(*ast.Ident); ok {
+							if dir := l.importDir(f, id.Name); dir != "" {
+								q, fn = l.load(dir), fx.Sel.Name
+							}
+						}
+					case *ast.Ident:
+						q, fn = m.kp, fx.Name
+					}
+					if q != nil && q.funcs[fn] != nil {
+						fd := q.funcs[fn]
+						ast.Inspect(fd, func(n ast.Node) bool {
+							kv2, ok := n.(*ast.KeyValueExpr)
+							if !ok {
+								return true
+							}
+							c2, ok := kv2.Value.(*ast.CallExpr)
+							if !ok || !strings.HasPrefix(exprStr(c2.Fun), "indexes.New") || len(c2.Args) < 3 {
+								return true
+							}
+							ip, ok := prefixOfExpr(l, q, q.ffile[fd], c2.Args[1])
+							if !ok {
+								bad++
+								ip = "?" + exprStr(c2.Args[1])
+							}
+							m.rows = append(m.rows, prefixRow{module: m.mod, name: key.Name + "." + exprStr(kv2.Key), prefix: ip, kind: "index", parent: key.Name})
+							return true
+						})
+					} else {
+						fmt.Fprintf(os.Stderr, "svx facts: %s.%s: index constructor not resolved\n", m.mod, key.Name)
+						bad++
+					}
+				}
+			}
+			return true
+		})
+	}
+	for _, n := range order {
+		if !seen[n] {
+			fmt.Fprintf(os.Stderr, "svx facts: %s.%s: collection field without constructor\n", m.mod, n)
+			m.rows = append(m.rows, prefixRow{module: m.mod, name: n, prefix: "?", kind: "coll"})
+			bad++
+		}
+	}
+	// raw KV prefixes: string constants of the types package that are turned into key bytes
+	rawConst := map[string]bool{}
+	markIn := func(n ast.Node) {
+		ast.Inspect(n, func(x ast.Node) bool {
+			switch y := x.(type) {
+			case *ast.Ident:
+				if _, ok := m.tp.consts[y.Name]; ok {
+					rawConst[y.Name] = true
+				}
+			case *ast.SelectorExpr:
+				if _, ok := m.tp.consts[y.Sel.Name]; ok {
+					rawConst[y.Sel.Name] = true
+				}
+			}
+			return true
+		})
+	}
+	byteResult := func(fd *ast.FuncDecl) bool {
+		if fd.Type.Results == nil {
+			return false
+		}
+		for _, r := range fd.Type.Results.List {
+			if exprStr(r.Type) == "[]byte" {
+				return true
+			}
+		}
+		return false
+	}
+	_ = markIn
+	_ = byteResult
+	var leftmost func(e ast.Expr) ast.Expr
+	leftmost = func(e ast.Expr) ast.Expr {
+		switch x := e.(type) {
+		case *ast.ParenExpr:
+			return leftmost(x.X)
+		case *ast.BinaryExpr:
+			if x.Op == token.ADD {
+				return leftmost(x.X)
+			}
+		case *ast.CallExpr:
+			fs := gotypes.ExprString(x.Fun)
+			if (fs == "fmt.Sprintf" || fs == "string" || fs == "[]byte") && len(x.Args) > 0 {
+				return leftmost(x.Args[0])
+			}
+		}
+		return e
+	}
+	for _, p := range []*pkgInfo{m.tp, m.kp} {
+		for _, fname := range p.names {
+			if isGenerated(fname) {
+				continue
+			}
+			ast.Inspect(p.files[fname], func(n ast.Node) bool {
+				if x, ok := n.(*ast.CallExpr); ok {
+					fs := gotypes.ExprString(x.Fun)
+					if (fs == "[]byte" || strings.HasSuffix(fs, "KeyPrefix")) && len(x.Args) == 1 {
+						switch y := leftmost(x.Args[0]).(type) {
+						case *ast.Ident:
+							if _, ok := m.tp.consts[y.Name]; ok && p == m.tp {
+								rawConst[y.Name] = true
+							}
+						case *ast.SelectorExpr:
+							if id, ok := y.X.(*ast.Ident); ok && l.importDir(p.files[fname], id.Name) == m.tp.dir {
+								if _, ok := m.tp.consts[y.Sel.Name]; ok {
+									rawConst[y.Sel.Name] = true
+								}
+							}
+						}
+					}
+				}
+				return true
+			})
+		}
+	}
+	// constants that only name the module / store / route are not key prefixes
+	for _, n := range []string{"ModuleName", "StoreKey", "RouterKey", "MemStoreKey", "GovModuleName", "QuerierRoute"} {
+		delete(rawConst, n)
+	}
+	collPrefixes := map[string]bool{}
+	for _, r := range m.rows {
+		collPrefixes[r.prefix] = true
+	}
+	var rawNames []string
+	for n := range rawConst {
+		if collPrefixes[m.tp.consts[n]] { // a string constant fed to collections.NewPrefix is already a row
+			continue
+		}
+		rawNames = append(rawNames, n)
+	}
+	sort.Strings(rawNames)
+	for _, n := range rawNames {
+		m.rows = append(m.rows, prefixRow{module: m.mod, name: n, prefix: m.tp.consts[n], kind: "raw"})
+		m.rawKey[n] = n
+	}
+	// key functions of the types package: which raw prefix do they build keys for (transitively)
+	for changed := true; changed; {
+		changed = false
+		for key, fd := range m.tp.funcs {
+			if _, ok := m.rawKey[key]; ok || fd.Body == nil || isGenerated(filepath.Base(l.fset.Position(fd.Pos()).Filename)) {
+				continue
+			}
+			hit := ""
+			ast.Inspect(fd.Body, func(n ast.Node) bool {
+				if id, ok := n.(*ast.Ident); ok && hit == "" {
+					if r, ok := m.rawKey[id.Name]; ok {
+						hit = r
+					}
+				}
+				return hit == ""
+			})
+			if hit != "" {
+				m.rawKey[key] = hit
+				changed = true
+			}
+		}
+	}
+	return bad
+}
+
+var writeMethods = map[string]bool{"Set": true, "Remove": true, "Next": true, "Clear": true, "Delete": true}
+var readMethods = map[string]bool{"Get": true, "Has": true, "Walk": true, "Iterate": true, "IterateRaw": true, "Peek": true, "Iterator": true,
+	"ReverseIterator": true, "KVStorePrefixIterator": true, "KVStoreReversePrefixIterator": true, "NewStore": true, "MatchExact": true}
+
+// touches: which rows a keeper function reads / writes, following calls to functions of the keeper package.
+func (m *modFacts) touches(key string) map[string]touch {
+	if t, ok := m.memo[key]; ok {
+		return t
+	}
+	out := map[string]touch{}
+	fd, ok := m.kp.funcs[key]
+	if !ok || fd.Body == nil || m.onStack[key] {
+		return out
+	}
+	m.onStack[key] = true
+	defer func() { m.onStack[key] = false }()
+	_, recv := recvTypeName(fd)
+	add := func(name string, r, w bool) {
+		t := out[name]
+		t.r = t.r || r
+		t.w = t.w || w
+		out[name] = t
+	}
+	var stack []ast.Node
+	ast.Inspect(fd.Body, func(n ast.Node) bool {
+		if n == nil {
+			stack = stack[:len(stack)-1]
+			return true
+		}
+		stack = append(stack, n)
+		switch x := n.(type) {
+		case *ast.SelectorExpr:
+			// k.Field…
+			if id, ok := x.X.(*ast.Ident); ok && id.Name == recv && recv != "" && m.fields[x.Sel.Name] {
+				// find the method applied to it: parent selector chain then call
+				meth := ""
+				for i := len(stack) - 2; i >= 0; i-- {
+					if ps, ok := stack[i].(*ast.SelectorExpr); ok {
+						meth = ps.Sel.Name
+						continue
+					}
+					if _, ok := stack[i].(*ast.CallExpr); ok {
+						break
+					}
+					meth = ""
+					break
+				}
+				switch {
+				case meth == "Next":
+					add(x.Sel.Name, true, true)
+				case writeMethods[meth]:
+					add(x.Sel.Name, false, true)
+				case readMethods[meth]:
+					add(x.Sel.Name, true, false)
+				default:
+					add(x.Sel.Name, true, true) // passed around: assume both
+				}
+			}
+			// types.RawConst / types.KeyFn
+			if id, ok := x.X.(*ast.Ident); ok && m.l.importDir(m.kp.ffile[fd], id.Name) == m.tp.dir {
+				if row, ok := m.rawKey[x.Sel.Name]; ok {
+					r, w := false, false
+					for i := len(stack) - 2; i >= 0; i-- {
+						if c, ok := stack[i].(*ast.CallExpr); ok {
+							name := ""
+							switch f := c.Fun.(type) {
+							case *ast.SelectorExpr:
+								name = f.Sel.Name
+							case *ast.Ident:
+								name = f.Name
+							}
+							if writeMethods[name] {
+								w = true
+								break
+							}
+							if readMethods[name] {
+								r = true
+								break
+							}
+						}
+					}
+					if !r && !w {
+						r, w = true, true
+					}
+					add(row, r, w)
+				}
+			}
+		case *ast.CallExpr:
+			callee := ""
+			switch f := x.Fun.(type) {
+			case *ast.SelectorExpr:
+				if id, ok := f.X.(*ast.Ident); ok && id.Name == recv && recv != "" {
+					callee = "Keeper." + f.Sel.Name
+					if _, ok := m.kp.funcs[callee]; !ok {
+						callee = ""
+						for k := range m.kp.funcs {
+							if strings.HasSuffix(k, "."+f.Sel.Name) {
+								callee = k
+							}
+						}
+					}
+				}
+			case *ast.Ident:
+				if _, ok := m.kp.funcs[f.Name]; ok {
+					callee = f.Name
+				}
+			}
+			if callee != "" {
+				for k, t := range m.touches(callee) {
+					add(k, t.r, t.w)
+				}
+			}
+		}
+		return true
+	})
+	m.memo[key] = out
+	return out
+}
+
+func scanGenesis(l *factsLoader) (rows []prefixRow, bad int) {
+	for _, mod := range customModules {
+		m := &modFacts{l: l, mod: mod, kp: l.load("x/" + mod + "/keeper"), tp: l.load("x/" + mod + "/types"), fields: map[string]bool{},
+			rawKey: map[string]string{}, memo: map[string]map[string]touch{}, onStack: map[string]bool{}}
+		bad += m.collect()
+		ini := m.touches("Keeper.InitGenesis")
+		exp := m.touches("Keeper.ExportGenesis")
+		if _, ok := m.kp.funcs["Keeper.InitGenesis"]; !ok {
+			fmt.Fprintf(os.Stderr, "svx facts: %s: InitGenesis not found\n", mod)
+			bad++
+		}
+		if _, ok := m.kp.funcs["Keeper.ExportGenesis"]; !ok {
+			fmt.Fprintf(os.Stderr, "svx facts: %s: ExportGenesis not found\n", mod)
+			bad++
+		}
+		for i := range m.rows {
+			r := &m.rows[i]
+			key := r.name
+			if r.kind == "index" {
+				key = r.parent // an index is rebuilt by writes to its primary map and never exported itself
+			}
+			r.initWrites = ini[key].w
+			r.exportReads = exp[key].r
+		}
+		rows = append(rows, m.rows...)
+	}
+	return
+}
+
+// ---------------------------------------------------------------------------------------------- module order lists
+
+func scanOrders(l *factsLoader) (map[string][]string, int) {
+	out := map[string][]string{}
+	p := l.load("app")
+	f, ok := p.files["app_config.go"]
+	if !ok {
+		return out, 1
+	}
+	want := map[string]bool{"PreBlockers": true, "BeginBlockers": true, "EndBlockers": true, "InitGenesis": true, "ExportGenesis": true}
+	ast.Inspect(f, func(n ast.Node) bool {
+		kv, ok := n.(*ast.KeyValueExpr)
+		if !ok {
+			return true
+		}
+		k, ok := kv.Key.(*ast.Ident)
+		if !ok || !want[k.Name] {
+			return true
+		}
+		var lit *ast.CompositeLit
+		switch v := kv.Value.(type) {
+		case *ast.CompositeLit:
+			lit = v
+		case *ast.Ident: // a package-level slice variable (genesisModuleOrder)
+			if t, ok := p.vars[v.Name]; ok && t.lazy != nil {
+				lit, _ = t.lazy.(*ast.CompositeLit)
+			}
+		}
+		if lit == nil {
+			return true
+		}
+		var names []string
+		for _, e := range lit.Elts {
+			names = append(names, moduleNameOf(l, p, f, e))
+		}
+		out[k.Name] = names
+		return true
+	})
+	bad := 0
+	for k := range want {
+		if k != "ExportGenesis" && len(out[k]) == 0 {
+			fmt.Fprintf(os.Stderr, "svx facts: app_config.go: %s list not found\n", k)
+			bad++
+		}
+	}
+	return out, bad
+}
+
+func moduleNameOf(l *factsLoader, p *pkgInfo, f *ast.File, e ast.Expr) string {
+	switch x := e.(type) {
+	case *ast.BasicLit:
+		s, _ := strconv.Unquote(x.Value)
+		return s
+	case *ast.SelectorExpr:
+		if id, ok := x.X.(*ast.Ident); ok {
+			if dir := l.importDir(f, id.Name); dir != "" {
+				if s, ok := l.load(dir).consts[x.Sel.Name]; ok {
+					return s
+				}
+			}
+			path := l.importPath(f, id.Name)
+			return path + "." + x.Sel.Name
+		}
+	case *ast.Ident:
+		if s, ok := p.consts[x.Name]; ok {
+			return s
+		}
+	}
+	return exprStr(e)
+}
+
+// ---------------------------------------------------------------------------------------------- emit
+
+func emitCoreFacts(repo, outDir string) int {
+	l := &factsLoader{repo: repo, fset: token.NewFileSet(), pkgs: map[string]*pkgInfo{}, usedForeign: map[string]bool{}}
+	dirs := consensusDirs(repo)
+	for _, d := range dirs { // load everything first so that name-based lookups see all repository packages
+		l.load(d)
+	}
+	sites, cons, nRange := scanDeterminism(l, dirs)
+	rows, bad := scanGenesis(l)
+	orders, bad2 := scanOrders(l)
+	bad += bad2
+
+	var b strings.Builder
+	b.WriteString("-- GENERATED by svx (facts.go) from the working tree of the repository. Do not edit.\n")
+	b.WriteString("namespace Sunrise.Gen.Facts\n\n")
+	b.WriteString("/-- A `range` statement over a map-typed (kind = \"map\") or not syntactically classifiable (kind = \"unknown\") expression\n")
+	b.WriteString("in a consensus package. `hash` = SHA-256/64 of the normalised loop, `useHash` = hash of every statement of the enclosing\n")
+	b.WriteString("function outside the loop that mentions a variable written by the loop. -/\n")
+	b.WriteString("structure MapRangeSite where\n  file : String\n  fn : String\n  hash : String\n  useHash : String\n  expr : String\n  kind : String\n  writes : List String\n  calls : List String\n  deriving DecidableEq, Repr\n\n")
+	fmt.Fprintf(&b, "def consensusDirs : List String := %s\n\n", leanStrList(dirs))
+	fmt.Fprintf(&b, "def rangeStatementsScanned : Nat := %d\n\n", nRange)
+	b.WriteString("def mapRangeSites : List MapRangeSite := [\n")
+	for i, s := range sites {
+		sep := ","
+		if i == len(sites)-1 {
+			sep = ""
+		}
+		fmt.Fprintf(&b, "  { file := %s, fn := %s, hash := %s, useHash := %s, expr := %s, kind := %s,\n    writes := %s, calls := %s }%s\n",
+			leanStr(s.file), leanStr(s.fn), leanStr(s.hash), leanStr(s.useHash), leanStr(s.expr), leanStr(s.kind), leanStrList(s.writes), leanStrList(s.calls), sep)
+		fmt.Printf("fact map-range %s:%d %s %s kind=%s hash=%s use=%s\n", s.file, s.line, s.fn, s.expr, s.kind, s.hash, s.useHash)
+		if os.Getenv("SVX_VERBOSE") != "" {
+			for _, u := range s.uses {
+				fmt.Printf("    use: %s\n", u)
+			}
+		}
+	}
+	b.WriteString("]\n\n")
+	b.WriteString("/-- Uses of wall-clock time, randomness, goroutines, select, floats, unsafe, pointer formatting, sync in consensus packages. -/\n")
+	b.WriteString("structure Construct where\n  kind : String\n  file : String\n  fn : String\n  detail : String\n  deriving DecidableEq, Repr\n\n")
+	b.WriteString("def forbiddenConstructs : List Construct := [\n")
+	for i, c := range cons {
+		sep := ","
+		if i == len(cons)-1 {
+			sep = ""
+		}
+		fmt.Fprintf(&b, "  { kind := %s, file := %s, fn := %s, detail := %s }%s\n", leanStr(c.kind), leanStr(c.file), leanStr(c.fn), leanStr(c.detail), sep)
+		fmt.Printf("fact construct %s %s %s %s\n", c.kind, c.file, c.fn, c.detail)
+	}
+	b.WriteString("]\n\n")
+	b.WriteString("/-- One store prefix of a custom module. kind: coll (collections item/map/sequence declared in keeper.go), index (index of an\n")
+	b.WriteString("IndexedMap; `parent` = its primary map; rebuilt by writes to the parent), raw (raw KV prefix constant of types/keys.go).\n")
+	b.WriteString("initWrites / exportReads: InitGenesis (resp. ExportGenesis) reaches a write (resp. read) of it through keeper-package calls. -/\n")
+	b.WriteString("structure PrefixRow where\n  module : String\n  name : String\n  pfx : String\n  kind : String\n  parent : String\n  initWrites : Bool\n  exportReads : Bool\n  deriving DecidableEq, Repr\n\n")
+	b.WriteString("def prefixTable : List PrefixRow := [\n")
+	for i, r := range rows {
+		sep := ","
+		if i == len(rows)-1 {
+			sep = ""
+		}
+		fmt.Fprintf(&b, "  { module := %s, name := %s, pfx := %s, kind := %s, parent := %s, initWrites := %v, exportReads := %v }%s\n",
+			leanStr(r.module), leanStr(r.name), leanStr(r.prefix), leanStr(r.kind), leanStr(r.parent), r.initWrites, r.exportReads, sep)
+		fmt.Printf("fact prefix %s %s %q kind=%s init=%v export=%v\n", r.module, r.name, r.prefix, r.kind, r.initWrites, r.exportReads)
+	}
+	b.WriteString("]\n\n")
+	var fa []string
+	for k := range l.usedForeign {
+		fa = append(fa, k)
+	}
+	sort.Strings(fa)
+	fmt.Fprintf(&b, "/-- Members of types declared outside the repository that the extractor ASSUMED to be slices (read from the pinned sources). -/\ndef foreignSliceAssumptions : List String := %s\n\n", leanStrList(fa))
+	fmt.Fprintf(&b, "def customModules : List String := %s\n\n", leanStrList(customModules))
+	for _, k := range []string{"PreBlockers", "BeginBlockers", "EndBlockers", "InitGenesis", "ExportGenesis"} {
+		fmt.Fprintf(&b, "def order%s : List String := %s\n\n", k, leanStrList(orders[k]))
+	}
+	b.WriteString("end Sunrise.Gen.Facts\n")
+	writeIfChanged(filepath.Join(outDir, "Facts.lean"), b.String())
+	return bad
+}
